@@ -203,13 +203,21 @@ class Sh:
             self.twin_case(chunks, "generated")
             if self.res["counters"].get("worker_crashes", 0) > CRASH_BUDGET: return
         # type-changing straight-line programs: every variable changes type several times
-        vals = ["1", "2.5", '"s"', "true", "tab(2, 1)", 'tab(1, "a")', 'tup(1, "a")', "tup(2.5)", "raw(2, 65)", "null", "int()", "str()", "tab(1, tab(1, 1))", "x + 1", "str(x)", "tab(2, x)", "y", "tup(y, 1)"]
+        vals = ["1", "2.5", '"s"', "true", "tab(2, 1)", 'tab(1, "a")', 'tup(1, "a")', "tup(2.5)", "raw(2, 65)", "null", "int()", "str()", "tab(1, tab(1, 1))", "x + 1", "str(x)", "tab(2, x)", "y", "tup(y, 1)",
+                'tab(2, tup(1, "a"))', 'tup(1, "a")', 'tup(2.5)', 'tab(2, tup(1, "a"))']
+        USES = {'tup(1, "a")': ['print {v}@1 " " {v}@2;', '{v}.set@1(5);', 'w = {v}@2 + "z"; print w;', '{v}.set@2("k"); print {v}@2;'],
+                "tup(2.5)": ["print {v}@1;", "{v}.set@1(0.5);"],
+                'tab(2, tup(1, "a"))': ["print {v}.at(0)@1;", "forall e in {v} loop print e@2; end loop;", '{v}.put(1, tup(7, "q")); print {v}.at(1)@2;'],
+                "tab(2, 1)": ["print {v}.at(1) + 1;", "{v}.put(0, 5);"], 'tab(1, "a")': ['print {v}.at(0) + "z";'],
+                "tab(1, tab(1, 1))": ["print {v}.at(0).at(0) + 1;", "{v}.put(0, tab(2, 4));"], "tup(y, 1)": ["print {v}@2 + 1;"]}
         for i in range(n // 2):
             st = ["x = 1;", "y = \"q\";"]
             for _ in range(r.randint(2, 8)):
                 v = r.choice(["x", "y", "z"]); e = r.choice(vals)
                 if v == "z" and ("x" in e or "y" in e) and r.random() < 0.5: e = "1"
                 st.append("%s = %s;" % (v, e))
+                # statements that need the new type's structure (tuple declaration, table dimension) at *compile* time
+                if e in USES and r.random() < 0.6: st.append(r.choice(USES[e]).format(v=v))
                 if r.random() < 0.5: st.append("print typeof(%s);" % r.choice(["x", "y"]))
                 if r.random() < 0.3: st.append("if isnull(%s) then print \"n\"; else %s = %s; end if;" % (v, v, r.choice(vals[:9])))
             self.twin_case(st, "retyping")
@@ -267,6 +275,45 @@ class Sh:
                 if mons:
                     self.viol("constraint|type-changed", "`%s` (%s): %s" % (text, route, "; ".join(mons)), wit); continue
                 self.res["nontrivial"].add(case_hash(["c", text, route]))
+        # structure: whatever a statement that writes into a container does (accepted or refused), expressions over the container
+        # still evaluate to the type the compiler gives them (tuple structure, table dimension)
+        writers = ['t = tab(2, tup(1, "a")); forall e in t loop e = tup("x", 2.5, true); end loop;',
+                   't = tab(2, tup(1, "a")); forall e in t loop e = tup(2, "b", 3); end loop;',
+                   't = tab(2, tup(1, "a")); forall e in t loop e = tup("x", 2); end loop;',
+                   't = tab(2, tup(1, "a")); forall e in t loop e = idf(tup("x", 2.5)); end loop;',
+                   't = tab(2, tup(1, "a")); t.put(0, idf(tup("x", 2.5)));',
+                   't = tab(2, tup(1, "a")); t.concat(idf(tup(2.5)));',
+                   't = tab(2, tup(1, "a")); t.at(0).set@1(idf("s"));',
+                   't = tab(2, tab(2, 1)); forall e in t loop e = tab(1, tab(1, 1)); end loop;',
+                   't = tab(2, tab(2, 1)); forall e in t loop e = tab(1, "s"); end loop;',
+                   't = tab(2, tab(2, 1)); forall e in t loop e = idf(tab(1, 2.5)); end loop;',
+                   't = tab(2, tab(2, 1)); t.put(1, idf(3.5));',
+                   't = tab(2, 1); forall e in t loop e = idf(tup(1)); end loop;',
+                   'r = tup(1, "a"); r.set@1(idf("s")); t = tab(1, r);',
+                   'r = tup(1, "a"); r.set@2(idf(tup(1))); t = tab(1, r);']
+        readers = ["t", "t.at(0)", "t.at(1)", "t.at(0)@1", "t.at(0)@2", "t.at(1)@1", "t.at(0).at(0)", "t.at(1).at(0)", "t.at(0).count()", "r", "r@1", "r@2"]
+        for wi, wtext in enumerate(writers):
+            if wi % n != k: continue
+            for route in ("batch", "stepwise"):
+                for rd in readers:
+                    ops = ["new A 0", "parse A PRE %s" % hx(pre), "run A PRE 100"]
+                    ops += (["parse A P %s" % hx(wtext), "run A P 5000"] if route == "batch" else ["istmt A %s 5000" % hx(wtext), "nopreply"])
+                    ops += ["resetstop A", "pexpr A E %s" % hx(rd), "eval A E 1000"]
+                    ops = [o for o in ops if o != "nopreply"]
+                    rr = self.probe.case(ops)
+                    self.res["evaluations"] += 1; bump(self.res, "structure_reads")
+                    wit = {"ops": ops, "program": wtext, "reader": rd}
+                    if rr.crashed:
+                        add_violation(self.res, "C02|crash:%s" % rr.sig, "`%s` then `%s` crashed: %s" % (wtext, rd, rr.sig), dict(wit, report=rr.report[-3000:])); continue
+                    rep = rr.replies
+                    pr, ev = rep[-2], rep[-1]
+                    if not pr.startswith("ok") or not ev.startswith("val"):
+                        bump(self.res, "structure_reader_not_applicable"); continue
+                    st = static_of(pr); val = rfields(ev)[1][0]
+                    why = type_mismatch(st, val)
+                    if why:
+                        self.viol("structure|%s" % re.sub(r"[^a-z@.]", "", rd), "after `%s` (%s), `%s`: %s (value %s)" % (wtext, route, rd, why, val[:60]), wit); continue
+                    self.res["nontrivial"].add(case_hash(["s", wtext, rd, route]))
         # host stores between statements: a constrained symbol refuses a value of another major type
         for v0, t0 in vals[:7]:
             for enc, t1 in [("i:5", "i"), ("n:4004000000000000", "n"), ("s:61", "s"), ("b:1", "b"), ("ti1[i:1]", "t"), ("Zu0", "u"), ("Zs0", "s")]:
